@@ -64,6 +64,8 @@ func genSendFaultsPlan(seed uint64, tier string) *Plan {
 		n++
 		p.Ops = append(p.Ops, Op{Kind: "e2e-answer-after-close", ID: fmt.Sprintf("ea%d", n), I: map[string]int{"rport": g.intn(2), "cell": n, "viaport": g.pick2(5060, 5090)}})
 		n++
+		p.Ops = append(p.Ops, Op{Kind: "e2e-answer-after-close", ID: fmt.Sprintf("er%d", n), I: map[string]int{"rport": g.intn(2), "cell": n, "viaport": g.pick2(5060, 5090), "race": 1}})
+		n++
 		p.Ops = append(p.Ops, Op{Kind: "e2e-broken-next-hop", ID: fmt.Sprintf("eb%d", n), I: map[string]int{"offset": g.intn(100000), "cell": n, "mode": g.intn(3), "size": g.pick2(0, 200, 5000)}})
 	}
 	return p
@@ -485,9 +487,47 @@ func sfAnswerAfterClose(w *World, v func(rule, id, sig, format string, a ...inte
 		w.stat("skipped:e2e-request-not-relayed")
 		return
 	}
+	resp := buildResponse(relayed.M, respPlan{status: 200, toTag: "tt" + id, expires: -1}, id)
+	if op.I["race"] == 1 {
+		// the client ends its stream (it keeps reading) at the very instant the answer reaches the proxy: the write
+		// of the answer and the proxy's own close of the connection (its reader saw end of stream) race. Whichever
+		// wins, the client gets the answer once: on the old connection, or on a fresh one to its Via address.
+		var oldData []byte
+		c.OnData = func(b []byte) { oldData = append(oldData, b...) }
+		c.CloseWriteExact(100 * time.Microsecond)
+		n.InjectUDP(udpAddr(relayed.E.Dst), udpAddr("10.0.0.1:5060"), resp, 100*time.Microsecond)
+		w.K.Settle(time.Second)
+		w.Stats["judged:C20"]++
+		sig := fmt.Sprintf("e2e-answer-racing-half-close;rport=%d", op.I["rport"])
+		w.stat("cell:" + sig)
+		count := 0
+		for _, stream := range [][]byte{oldData, gotData} {
+			for len(stream) > 0 {
+				m, rest, err := sipwire.Parse(stream)
+				if err != nil {
+					break
+				}
+				if msgID(m) == id+".r200" {
+					count++
+				}
+				stream = rest
+			}
+		}
+		if len(oldData) > 0 {
+			w.stat("probe:answer-written-before-the-proxy-closed")
+		} else if len(gotData) > 0 {
+			w.stat("probe:answer-on-fresh-connection-after-half-close")
+		}
+		if count > 1 {
+			v("message-duplicated", id, sig, "the answer was delivered %d times (%d bytes on the request's connection, %d bytes on %d fresh connection(s) to the Via address)", count, len(oldData), len(gotData), got)
+		}
+		if count == 0 && op.I["rport"] == 0 {
+			v("answer-lost-after-connection-failure", id, sig, "the client half-closed the connection while the answer arrived; it must get the answer once, on that connection or on a fresh one to its Via address %s:%d; it got none", clientIP, viaPort)
+		}
+		return
+	}
 	c.Close()
 	w.K.Settle(time.Second)
-	resp := buildResponse(relayed.M, respPlan{status: 200, toTag: "tt" + id, expires: -1}, id)
 	n.InjectUDP(udpAddr(relayed.E.Dst), udpAddr("10.0.0.1:5060"), resp, 100*time.Microsecond)
 	w.K.Settle(time.Second)
 	w.Stats["judged:C20"]++
